@@ -25,7 +25,7 @@ Ev     == Evs[pos]
 
 tvars == <<th, conns, lock, pre, committed, faults, fowner, forks, npid, dead, flags, tid, pos>>
 
-ASSUME \A i \in 1..NT : TLCSet(i, 0) /\ TLCSet(NT + i, <<0, "">>)
+ASSUME \A i \in 1..NT : TLCSet(i, 0) /\ TLCSet(NT + i, <<0, "">>) /\ TLCSet(2 * NT + i, <<0, "">>)
 
 TInit ==
     /\ tid \in 1..NT
@@ -135,14 +135,18 @@ FailedInv ==
       [] ~OutermostOnly -> "OutermostOnly"
       [] OTHER -> ""
 
+\* properties that are recorded but do not stop the validation of the rest of the trace
+SoftFailed == IF ~LockCoversTx THEN "LockCoversTx" ELSE ""
+
 \* CONSTRAINT: bookkeeping per trace id; a state that violates an invariant is recorded and not extended
 Track ==
-    LET f == FailedInv IN
-    IF f = "" THEN (IF pos > TLCGet(tid) THEN TLCSet(tid, pos) ELSE TRUE)
+    LET f == FailedInv g == SoftFailed IN
+    IF f = "" THEN /\ (IF pos > TLCGet(tid) THEN TLCSet(tid, pos) ELSE TRUE)
+                   /\ (IF g # "" /\ TLCGet(2 * NT + tid)[1] = 0 THEN TLCSet(2 * NT + tid, <<pos, g>>) ELSE TRUE)
     ELSE /\ (IF TLCGet(NT + tid)[1] = 0 THEN TLCSet(NT + tid, <<pos, f>>) ELSE TRUE)
          /\ FALSE
 
 \* POSTCONDITION: write, per trace id, the furthest position and the violated invariant (0 = none)
 Report == JsonSerialize(IOEnv.OUT, [i \in 1..NT |-> [reached |-> TLCGet(i), len |-> Len(Traces[i].evs),
-                                                   inv |-> TLCGet(NT + i)]])
+                                                   inv |-> TLCGet(NT + i), soft |-> TLCGet(2 * NT + i)]])
 =============================================================================
